@@ -1,0 +1,10 @@
+//go:build !verif
+// +build !verif
+
+package gedcom
+
+func verifHook(role string, worker int, point string, args ...string) {}
+
+func verifPointer(node *IndividualNode) string { return "" }
+
+func verifHit(hit bool) string { return "" }
